@@ -279,3 +279,37 @@ Qed.
 
 Corollary registered_at_most_once s id : ainv s -> kcount id (ag_tbl s) <= 1.
 Proof. intros [Hn _]. rewrite kcount_mem by exact Hn. destruct (tbl_mem id (ag_tbl s)); lia. Qed.
+
+(* Collect(t), read off directly: a registered transaction whose deadline is strictly before t gets its
+   timeout and leaves the table; one whose deadline is t or later - however far away - stays, and the
+   call emits nothing for it. *)
+Lemma collect_expired s t id d : ag_closed s = false -> In (id, d) (ag_tbl s) -> (d < t)%Z ->
+  In (mkEv (ag_handler s) id K_TIMEOUT 0 true) (snd (snd (a_step s (ACollect t)))) /\
+  ~ In (id, d) (ag_tbl (fst (a_step s (ACollect t)))).
+Proof.
+  intros Hc Hin Hd. unfold a_step. rewrite Hc. cbn [fst snd ag_tbl]. split.
+  - apply in_map_iff. exists (id, d). split; [reflexivity|]. apply filter_In. split; [exact Hin|].
+    cbn [snd]. apply Z.ltb_lt. exact Hd.
+  - intros H. apply filter_In in H. destruct H as [_ H]. cbn [snd] in H.
+    apply Z.ltb_lt in Hd. rewrite Hd in H. discriminate.
+Qed.
+
+Lemma collect_keeps_unexpired s t id d : ainv s -> ag_closed s = false -> In (id, d) (ag_tbl s) -> (t <= d)%Z ->
+  In (id, d) (ag_tbl (fst (a_step s (ACollect t)))) /\
+  (forall ev, In ev (snd (snd (a_step s (ACollect t)))) -> ev_id ev <> id).
+Proof.
+  intros [Hnd _] Hc Hin Hd. unfold a_step. rewrite Hc. cbn [fst snd ag_tbl]. split.
+  - apply filter_In. split; [exact Hin|]. cbn [snd].
+    replace (d <? t)%Z with false by (symmetry; apply Z.ltb_ge; exact Hd). reflexivity.
+  - intros ev Hev Heq. apply in_map_iff in Hev. destruct Hev as ([id' d'] & <- & Hf).
+    cbn [ev_id fst] in Heq. subst id'. apply filter_In in Hf. destruct Hf as [Hin' Hlt]. cbn [snd] in Hlt.
+    assert (d' = d).
+    { clear - Hnd Hin Hin'. induction (ag_tbl s) as [|[k v] l IH]; [destruct Hin|].
+      cbn [map fst] in Hnd. inversion Hnd as [|? ? Hnot Hnd']; subst.
+      destruct Hin as [E|Hin]; destruct Hin' as [E'|Hin'].
+      - congruence.
+      - injection E as -> ->. exfalso. apply Hnot. apply in_map_iff. exists (id, d'). split; [reflexivity|exact Hin'].
+      - injection E' as -> ->. exfalso. apply Hnot. apply in_map_iff. exists (id, d). split; [reflexivity|exact Hin].
+      - apply IH; assumption. }
+    subst d'. apply Z.ltb_lt in Hlt. lia.
+Qed.
